@@ -2,7 +2,7 @@ package main
 
 // C17, component measurements — the two places where the whole CRL passes through memory-bounded code, each on
 // its own (no LevelDB caches in the picture, so the tolerance can be small and the input large):
-//   download: the URL loader fetching a 1 000 000-entry CRL into a file;
+//   download: the URL loader fetching a 1 000 000-entry CRL into a file; copy-file: the file loader copying one;
 //   read:     the streaming reader handing the entries of such a file (DER and PEM) to a consumer that keeps nothing.
 // The child samples runtime.MemStats.HeapAlloc every millisecond (GC percent 20): a buffer that holds the
 // document, or a slice that collects the entries, shows as a peak of the order of the input.
@@ -55,7 +55,7 @@ func c17ComponentStage(c *Ctx, ca *CA) int {
 	}
 	self, _ := os.Executable()
 	count := 0
-	for _, what := range []string{"download", "read-der", "read-pem"} {
+	for _, what := range []string{"download", "copy-file", "read-der", "read-pem"} {
 		count++
 		path := filepath.Join(c.Work, "c17comp_"+what+".crl")
 		size, _ := writeBigCRL(path, ca, n, what == "read-pem")
@@ -72,7 +72,7 @@ func c17ComponentStage(c *Ctx, ca *CA) int {
 		switch {
 		case o.Err != "":
 			c.Fail("", "component measurement ("+what+") failed: "+o.Err, o)
-		case what != "download" && o.Events != n:
+		case what != "download" && what != "copy-file" && o.Events != n:
 			c.Fail("", fmt.Sprintf("%s: %d of %d entries delivered", what, o.Events, n), o)
 		case int64(o.PeakHeap)-int64(o.BaseHeap) > int64(size)/4:
 			c.Fail("", fmt.Sprintf("%s of a %d-byte CRL (%d entries): heap rose from %d to %d bytes — memory in proportion to the document", what, size, n, o.BaseHeap, o.PeakHeap), o)
@@ -98,6 +98,13 @@ func runC17CompChild(c *Ctx) {
 			o.Err = err.Error()
 		}
 		target := filepath.Join(c.Out, "downloaded.crl")
+		job = func() error { return loader.LoadCRL(target) }
+	case "copy-file":
+		loader, err := crlloader.DefaultCRLLoaderFactory{}.CreatePreferredCrlLoader(&core.CRLLocations{CRLFile: path}, zap.NewNop())
+		if err != nil {
+			o.Err = err.Error()
+		}
+		target := filepath.Join(c.Out, "copied.crl")
 		job = func() error { return loader.LoadCRL(target) }
 	default:
 		job = func() error {
